@@ -33,6 +33,8 @@ pub struct Scn {
     pub conns: HashMap<String, ServeConn>,
     /// room-modified events a peer must still deliver (one per accepted room creation or update), waited for by `serve`
     pub pending_room_events: HashMap<String, usize>,
+    /// room-modified events read from the peers' channels and not yet handed to a serving connection
+    pub room_queue: HashMap<String, Vec<std::sync::Arc<vh::database::room::Room>>>,
 }
 
 impl World {
@@ -526,19 +528,12 @@ pub async fn serve(world: &mut World, scn: &mut Scn, step: &Value) -> Result<Val
     {
         // every accepted room creation or update of the server is announced: wait for those announcements (they are asynchronous)
         let expected = scn.pending_room_events.remove(&sname).unwrap_or(0);
-        let rx = world.rx.get_mut(&sname).unwrap();
         // (an update that changes nothing is not announced: give up after a quiet period)
         let mut quiet = 0;
         while quiet < 100 {
             let before = changed.len();
-            loop {
-                match rx.try_recv() {
-                    Ok(discret::Event::RoomModified(r)) => changed.push(r),
-                    Ok(_) => {}
-                    Err(tokio::sync::broadcast::error::TryRecvError::Lagged(_)) => {}
-                    Err(_) => break,
-                }
-            }
+            absorb_room_events(world, scn);
+            changed.append(scn.room_queue.entry(sname.clone()).or_default());
             if changed.len() >= expected {
                 break;
             }
@@ -875,25 +870,33 @@ pub async fn forge(world: &mut World, scn: &mut Scn, step: &Value) -> Result<Val
     Ok(json!({"verdict": accepted, "stored": stored, "live": live}))
 }
 
+/// reads what the peers have announced so far (the channels are bounded: they are read after every step, not only when a
+/// step needs the announcements); the last announced version of each room is kept, and every announcement is queued for `serve`
+pub fn absorb_room_events(world: &mut World, scn: &mut Scn) {
+    let names: Vec<String> = world.rx.keys().cloned().collect();
+    for pn in names {
+        let rx = world.rx.get_mut(&pn).unwrap();
+        loop {
+            match rx.try_recv() {
+                Ok(discret::Event::RoomModified(r)) => {
+                    scn.live_rooms.insert((pn.clone(), r.id), r.clone());
+                    scn.room_queue.entry(pn.clone()).or_default().push(r);
+                }
+                Ok(_) => {}
+                Err(tokio::sync::broadcast::error::TryRecvError::Lagged(_)) => {}
+                Err(_) => break,
+            }
+        }
+    }
+}
+
 /// decisions of the room carried by the last room-modified event of a peer.  Announcements are asynchronous: when `want`
 /// (the decisions of the stored definition) is given, events are awaited until the announced room decides the same, one
 /// second at most; without it, until some announcement of the room has been seen.
 async fn live_matrix(world: &mut World, scn: &mut Scn, pname: &str, room: Uid, dates: &[i64], want: Option<&Value>) -> Value {
     let mut last = json!({"err": "no room-modified event"});
     for _ in 0..200 {
-        {
-            let rx = world.rx.get_mut(pname).unwrap();
-            loop {
-                match rx.try_recv() {
-                    Ok(discret::Event::RoomModified(r)) => {
-                        scn.live_rooms.insert((pname.to_string(), r.id), r.clone());
-                    }
-                    Ok(_) => {}
-                    Err(tokio::sync::broadcast::error::TryRecvError::Lagged(_)) => {}
-                    Err(_) => break,
-                }
-            }
-        }
+        absorb_room_events(world, scn);
         let live = scn.live_rooms.get(&(pname.to_string(), room)).cloned();
         if let Some(r) = &live {
             last = matrix_of(r, scn, dates);
@@ -1642,6 +1645,8 @@ pub async fn run_step(world: &mut World, scn: &mut Scn, step: &Value, out: &mut 
     if dbg { eprintln!("project"); }
     if scn.events {
         ev["events"] = drain_events(world, scn).await;
+    } else {
+        absorb_room_events(world, scn);
     }
     ev["st"] = project_all(world, scn).await;
     if dbg { eprintln!("defs"); }
@@ -1663,7 +1668,7 @@ pub async fn run_step(world: &mut World, scn: &mut Scn, step: &Value, out: &mut 
 pub async fn run_scenario(world: &mut World, sc: &Value, out: &mut TraceWriter) {
     let peers: Vec<String> = arr(sc, "peers").iter().map(|x| x.as_str().unwrap().to_string()).collect();
     let mut scn = Scn { names: Names::default(), hash_ids: HashMap::new(), terms: HashMap::new(), peers: peers.clone(), events: sc.get("events").and_then(|e| e.as_bool()).unwrap_or(false),
-        defs: sc.get("defs").and_then(|e| e.as_bool()).unwrap_or(false), auth_ids: HashMap::new(), user_key: HashMap::new(), defs_cache: None, live_rooms: HashMap::new(), conns: HashMap::new(), pending_room_events: HashMap::new() };
+        defs: sc.get("defs").and_then(|e| e.as_bool()).unwrap_or(false), auth_ids: HashMap::new(), user_key: HashMap::new(), defs_cache: None, live_rooms: HashMap::new(), conns: HashMap::new(), pending_room_events: HashMap::new(), room_queue: HashMap::new() };
     for p in &peers {
         let user = sc["users"][p].as_str().unwrap_or("u1").to_string();
         world.ensure_peer(p, &user).await;
